@@ -79,6 +79,16 @@ def run(cx, tier='quick'):
     selftest(rep)
     rep.assumptions += ['safe Rust cannot observe enum layout', 'Rust reference: implicit discriminant = previous + 1, first = 0']
     rep.not_decided += ['non-literal discriminant expressions are refused by educe (outside C04 as stated)']
+    # same-variant clause ("ordered by their fields alone"): the enum summaries of SUM-ORD, incl. the all-unit shortcut analysis
+    from .c03 import check_enum as _sum_ord_enum
+    from ..facts import Facts as _Facts
+    from ..report import Report as _Report
+    sub = _Report('C04')
+    f_ = _Facts(cx)
+    for t_, sh_, fn_ in cx.shape_handlers():
+        if t_ in ('Ord', 'PartialOrd') and sh_ == 'enum':
+            _sum_ord_enum(cx, fn_, sub, f_, t_ == 'PartialOrd')
+    rep.merge(sub)
     return rep
 
 
